@@ -21,7 +21,38 @@ Definition try_and (l r : value) : option value :=
 
 Definition falsy (v : value) : bool := match v with VNull | VBool false => true | _ => false end.
 
-(* assignment::Target::insert (External goes through Target::target_insert of TargetValue) *)
+(* ---- the Target trait as implemented by TargetValue, with the log and the fault schedule ---- *)
+
+Definition pop_fault (s : state) : bool * list bool :=
+  match faults s with [] => (false, []) | b :: r => (b, r) end.
+
+Definition tval (s : state) (pfx : prefix) : value := match pfx with PEvent => ev s | PMeta => md s end.
+
+Definition with_target (s : state) (pfx : prefix) (v : value) (lg : list top) (fs : list bool) : state :=
+  match pfx with
+  | PEvent => mkState (vars s) v (md s) lg fs
+  | PMeta => mkState (vars s) (ev s) v lg fs
+  end.
+
+(* target_get(..).ok().flatten(): a rejected read is a missing value *)
+Definition t_get (s : state) (pfx : prefix) (p : path) : option value * state :=
+  let '(bad, fs) := pop_fault s in
+  let s' := mkState (vars s) (ev s) (md s) (TGet pfx p :: tlog s) fs in
+  (if bad then None else get (tval s pfx) p, s').
+
+(* drop(target_insert(..)): a rejected write changes nothing *)
+Definition t_insert (s : state) (pfx : prefix) (p : path) (v : value) : state :=
+  let '(bad, fs) := pop_fault s in
+  with_target s pfx (if bad then tval s pfx else insert (tval s pfx) p v) (TIns pfx p :: tlog s) fs.
+
+(* target_remove(..).ok().flatten() *)
+Definition t_remove (s : state) (pfx : prefix) (p : path) (compact : bool) : option value * state :=
+  let '(bad, fs) := pop_fault s in
+  if bad then (None, with_target s pfx (tval s pfx) (TRem pfx p compact :: tlog s) fs)
+  else let '(r, v') := remove (tval s pfx) p compact in
+       (r, with_target s pfx v' (TRem pfx p compact :: tlog s) fs).
+
+(* assignment::Target::insert *)
 Definition target_insert (s : state) (t : target) (v : value) : state :=
   match t with
   | TNoop => s
@@ -31,8 +62,7 @@ Definition target_insert (s : state) (t : target) (v : value) : state :=
       | Some stored => set_vars s (var_set (vars s) x (insert stored p v))
       | None => set_vars s (var_set (vars s) x (insert VNull p v))      (* value.at_path(path) *)
       end
-  | TExt PEvent p => mkState (vars s) (insert (ev s) p v) (md s)
-  | TExt PMeta p => mkState (vars s) (ev s) (insert (md s) p v)
+  | TExt pfx p => t_insert s pfx p v
   end.
 
 Definition or_null (o : option value) : value := match o with Some v => v | None => VNull end.
@@ -191,8 +221,7 @@ Section Eval.
     match e with
     | ELit v => (inl v, s)
     | EVar x => (inl (or_null (var_get (vars s) x)), s)
-    | EQExt PEvent p => (inl (or_null (get (ev s) p)), s)
-    | EQExt PMeta p => (inl (or_null (get (md s) p)), s)
+    | EQExt pfx p => let '(r, s') := t_get s pfx p in (inl (or_null r), s')
     | EQVar x p => (inl (or_null (get (or_null (var_get (vars s) x)) p)), s)
     | EQExpr e1 p =>
         match eval e1 s with
@@ -299,6 +328,22 @@ Section Eval.
                | (inr er, s') => (inr er, s')
                end
            end) args [] s
+    | EDelExt pfx p compact =>
+        let '(r, s') := t_remove s pfx p compact in (inl (or_null r), s')
+    | EDelVar x p compact =>
+        match var_get (vars s) x with
+        | Some v =>
+            let '(_, v') := remove v p compact in
+            (inl (or_null (get v p)), set_vars s (var_set (vars s) x v'))
+        | None => (inl VNull, s)
+        end
+    | EExistsExt pfx p =>
+        let '(r, s') := t_get s pfx p in
+        (inl (VBool (match r with Some _ => true | None => false end)), s')
+    | EExistsVar x p =>
+        (inl (VBool (match var_get (vars s) x with
+                     | Some v => match get v p with Some _ => true | None => false end
+                     | None => false end)), s)
     | EClosure cf arg ps body =>
         match eval arg s with
         | (inl v, s') => run_closure (blk body) ps cf v s'
@@ -306,10 +351,16 @@ Section Eval.
         end
     end.
 
-  (* Runtime::resolve on a target whose root is readable *)
+  (* Runtime::resolve.  It first reads the event root (consuming one slot of the fault schedule;
+     this read is the runtime's own, it is not logged as a program read): a rejected or empty
+     root ends the run with an error.  The model's event is always a value, so only the rejected
+     case arises. *)
   Inductive outcome := Success (v : value) | Aborted (m : option bytes) | Failed | Panicked.
 
-  Definition run (es : list expr) (s : state) : outcome * state :=
+  Definition run (es : list expr) (s0 : state) : outcome * state :=
+    let '(bad, fs) := pop_fault s0 in
+    let s := mkState (vars s0) (ev s0) (md s0) (tlog s0) fs in
+    if bad then (Failed, s) else
     match eval (EBlock es) s with
     | (inl v, s') => (Success v, s')
     | (inr (Return v), s') => (Success v, s')
